@@ -353,7 +353,7 @@ func (c *c20Conn) ReadFrom(p []byte) (int, net.Addr, error) {
 	return n, it.addr, nil
 }
 func (c *c20Conn) WriteTo(p []byte, addr net.Addr) (int, error) { return len(p), nil }
-func (c *c20Conn) Close() error                                  { return nil }
+func (c *c20Conn) Close() error                                 { return nil }
 func (c *c20Conn) LocalAddr() net.Addr {
 	return &net.UDPAddr{IP: net.IPv4(127, 0, 0, 1), Port: 4433}
 }
@@ -652,6 +652,40 @@ func c20Server(c c20Case, res map[string]any) {
 	chans := map[string]<-chan PunchPacketEvent{}
 	metas := map[string]PunchMetadata{}
 	expectQ := map[string][]c20Pkt{} // datagrams expected in each attempt's channel
+	takeAll := func(oi int, id string) []c20Ev {
+		evs := []c20Ev{}
+		ch := chans[id]
+		for ch != nil {
+			got := false
+			select {
+			case ev := <-ch:
+				got = true
+				evs = append(evs, c20EvOf(ev))
+				if ev.AttemptID != id {
+					fail(fmt.Sprintf("op %d: channel of attempt %q received an event of attempt %q", oi, id, ev.AttemptID))
+				}
+			default:
+			}
+			if !got {
+				break
+			}
+		}
+		if _, amb := expectQ["\x00ambiguous"]; !amb && ch != nil {
+			want := expectQ[id]
+			if len(want) != len(evs) {
+				fail(fmt.Sprintf("op %d: attempt %q received %d event(s), expected %d", oi, id, len(evs), len(want)))
+			} else {
+				for i := range want {
+					ap, _ := want[i].Addr.addrPort()
+					if evs[i].Port != int(ap.Port()) {
+						fail(fmt.Sprintf("op %d: attempt %q event %d comes from another datagram", oi, id, i))
+					}
+				}
+			}
+		}
+		expectQ[id] = nil
+		return evs
+	}
 	opsOut := make([]map[string]any, 0, len(c.Ops))
 	for oi, op := range c.Ops {
 		o := map[string]any{"op": op.Op}
@@ -673,6 +707,7 @@ func c20Server(c c20Case, res map[string]any) {
 				expectQ[op.Id] = nil
 			}
 		case "rm":
+			o["evs"] = takeAll(oi, op.Id) // observe what is waiting before the channel is dropped
 			sp.removeAttempt(op.Id)
 			delete(chans, op.Id)
 			delete(metas, op.Id)
@@ -726,38 +761,7 @@ func c20Server(c c20Case, res map[string]any) {
 				fail(fmt.Sprintf("op %d: %d datagrams reached the reader, expected %d", oi, nret, nexp))
 			}
 		case "take":
-			evs := []c20Ev{}
-			ch := chans[op.Id]
-			for ch != nil {
-				got := false
-				select {
-				case ev := <-ch:
-					got = true
-					evs = append(evs, c20EvOf(ev))
-					if ev.AttemptID != op.Id {
-						fail(fmt.Sprintf("op %d: channel of attempt %q received an event of attempt %q", oi, op.Id, ev.AttemptID))
-					}
-				default:
-				}
-				if !got {
-					break
-				}
-			}
-			if _, amb := expectQ["\x00ambiguous"]; !amb && ch != nil {
-				want := expectQ[op.Id]
-				if len(want) != len(evs) {
-					fail(fmt.Sprintf("op %d: attempt %q received %d event(s), expected %d", oi, op.Id, len(evs), len(want)))
-				} else {
-					for i := range want {
-						ap, _ := want[i].Addr.addrPort()
-						if evs[i].Port != int(ap.Port()) {
-							fail(fmt.Sprintf("op %d: attempt %q event %d comes from another datagram", oi, op.Id, i))
-						}
-					}
-				}
-			}
-			expectQ[op.Id] = nil
-			o["evs"] = evs
+			o["evs"] = takeAll(oi, op.Id)
 		}
 		opsOut = append(opsOut, o)
 	}
